@@ -218,6 +218,8 @@ class Plan:
                 return ("ret", args[-1] if args else None)
             if b[1] in ("T", "F"):
                 return ("ret", b[1] == "T")
+            if b[1] == 0:
+                return ("ret", 0)  # a falsy replacement value: still "not None"
             return ("ret", "R%d" % b[1])
         _, name, depth = b[:3]
         exc = b[3] if len(b) > 3 else None
@@ -384,6 +386,8 @@ def run_real(pp, mode, kind, k, behs):
                 top = [Sym("returns"), Sym("matched")]
             elif is_class and len(lst) == 1 and type(lst[0]).__name__ == "K":
                 top = [Sym("returns"), [Sym("replaced"), 99]]
+            elif lst == [0] and type(lst[0]) is int:
+                top = [Sym("returns"), [Sym("replaced"), 0]]
             elif len(lst) == 1 and isinstance(lst[0], str) and lst[0].startswith("R"):
                 top = [Sym("returns"), [Sym("replaced"), int(lst[0][1:])]]
             else:
@@ -483,7 +487,7 @@ def oracle_trim(mode, acc, is_class, behs, obs, cover_index_after_found=False):
 # ================================================================================================
 # generators
 # ================================================================================================
-RETS_ACT = [("ret", "none"), ("ret", "same"), ("ret", 5)]
+RETS_ACT = [("ret", "none"), ("ret", "same"), ("ret", 5), ("ret", 0)]
 RETS_COND = [("ret", "T"), ("ret", "F")]
 
 
@@ -987,6 +991,74 @@ def check_trim(ctx, pp, cfg):
     return cases
 
 
+# ---- C-level callables (no Python frame of their own): the `frames = []` branch of the traceback rule --------
+def clevel_specs():
+    """(name, callable, accepted counts, behaviour per k as model S-expression, expected as_list per value id)"""
+    T = [Sym("raise"), Sym("T")]  # TypeError raised by the C code itself: no frame below the wrapper
+    return [
+        ("int", int, [0, 1, 2], {2: T, 1: T, 0: [Sym("ret"), 0]}, {0: [0]}),
+        ("bool", bool, [0, 1], {1: [Sym("ret"), 1], 0: [Sym("ret"), 2]}, {1: [True], 2: [False]}),
+        ("str", str, [0, 1, 2, 3], {3: T, 2: T, 1: [Sym("ret"), 3], 0: [Sym("ret"), 4]}, {3: ["['ab']"], 4: [""]}),
+        ("itemgetter", operator.itemgetter(0), [1], {1: [Sym("ret"), 5]}, {5: ["ab"]}),
+        ("str.join", "-".join, [1], {1: [Sym("ret"), 6]}, {6: ["ab"]}),
+        ("object", object, [0], {0: [Sym("ret"), 7]}, {7: "object"}),
+    ]
+
+
+def check_clevel(ctx, pp, cfg):
+    cases, lines, impl, mouts = [], [], [], []
+    for name, fn, acc, behs, vals in clevel_specs():
+        e = pp.Word("ab").set_parse_action(fn)
+        obs = []
+        for _ in range(2):  # second call exercises the sticky fast path
+            try:
+                lst = e.parse_string(INPUT).as_list()
+                vid = next((v for v, want in vals.items()
+                            if lst == want or (want == "object" and len(lst) == 1 and type(lst[0]) is object)), None)
+                if vid is not None and lst == TOKS and vals[vid] != TOKS:
+                    vid = None
+                top = [Sym("returns"), [Sym("replaced"), vid]] if vid is not None else \
+                    ([Sym("returns"), Sym("matched")] if lst == TOKS else [Sym("returns"), [Sym("other"), repr(lst)]])
+            except BaseException as x:  # noqa
+                top = [Sym("raises"), Sym(classify_exc(pp, x))]
+            obs.append(top)
+        beh_list = [behs.get(k, [Sym("ret"), Sym("none")]) for k in range(4)]
+        line = sx(Sym("trim"), Sym("act"), cfg, 3, [False, 0], [acc, beh_list], [acc, beh_list])
+        mo = ctx.driver.run([line])[0]
+        try:
+            mtops = [it[2] for it in loads(mo)]
+        except Exception:
+            mtops = mo
+        cases.append({"callable": name})
+        lines.append(line)
+        impl.append(sx(obs))
+        mouts.append(sx(mtops) if not isinstance(mtops, str) else mtops)
+    ctx.correspond("trim-clevel", cases, lines, impl, model_outputs=mouts, outcome_of=lambda c, o: c["callable"])
+
+
+# ---- the supported single-argument builtins (core.py:209-211, 261-262): called with the tokens only --------
+def check_builtins(ctx, pp):
+    n = 0
+    for b in sorted(pp.core._single_arg_builtins, key=lambda f: f.__name__):
+        def canon(fn):
+            item = pp.Word("123").add_parse_action(lambda t: int(t[0]))
+            e = pp.OneOrMore(item).set_parse_action(fn)
+            try:
+                r = e.parse_string(" 3 1 2 2").as_list()
+                r = [sorted(x) if isinstance(x, (set, frozenset)) else (list(x) if hasattr(x, "__next__") else x)
+                     for x in r]
+                return ("ok", repr(r))
+            except BaseException as x:  # noqa
+                return ("exc", type(x).__name__)
+        got = canon(b)
+        want = canon(lambda t: b(t))  # the documented reading: fn(tokens)
+        n += 1
+        if got != want:
+            ctx.fail_input("supported builtin not called with the tokens only", {"builtin": b.__name__}, want, got,
+                           theorem="_single_arg_builtins short-cut == lambda s, l, t: func(t) (oracle only)")
+    ctx.count_cases("oracle-builtins", n, distinct_keys=[b.__name__ for b in pp.core._single_arg_builtins])
+
+
 def replay_witnesses(ctx, pp, cfg):
     """corpus: registered witnesses run first"""
     if not CORPUS.exists():
@@ -1030,6 +1102,8 @@ def run(ctx):
         "is visited only by the registered corpus witness")
     replay_witnesses(ctx, pp, cfg)
     check_trim(ctx, pp, cfg)
+    check_clevel(ctx, pp, cfg)
+    check_builtins(ctx, pp)
     check_gate(ctx, pp)
     ctx.assumptions.append("C13: CPython traceback layout (binding failure has no callee frame) is assumed by the model "
                            "and validated only by the correspondence run")
@@ -1038,6 +1112,16 @@ def run(ctx):
 def replay(data):
     pp = common.import_pyparsing()
     case = data.get("case", {})
+    if "tree" in case:
+        def tup(x):
+            return tuple(tup(y) if isinstance(y, list) and y and isinstance(y[0], str) else y for y in x)
+        t = tup(case["tree"])
+        _, log = run_gate_real(pp, t, case["s"], case["da"])
+        bad = oracle_gate(t, case["s"], case["da"], log)
+        if not bad and case["da"]:
+            _, log = run_gate_real(pp, t, case["s"], True, via_parse_string=True)
+            bad = oracle_gate(t, case["s"], True, log)
+        return bad is not None
     if "behs" in case:
         behs = [tuple(b) for b in case["behs"]]
         obs, acc, is_class = run_real(pp, case["mode"], case["kind"], case["k"], behs)
